@@ -53,6 +53,7 @@ func (e *Enc) instr(in ssa.Instruction, st *State) {
 			e.storeAt(st, ref, t, zeroVal(t))
 		}
 		e.set(in, &Val{typ: in.Type(), c: []string{ref}})
+		st.unesc[in] = ref
 	case *ssa.FieldAddr:
 		x := e.val(in.X)
 		stt := in.X.Type().Underlying().(*types.Pointer).Elem()
@@ -184,6 +185,9 @@ func (e *Enc) instr(in ssa.Instruction, st *State) {
 			e.set(v, &Val{typ: v.Type(), c: []string{ref, "0", ln, cp}})
 		default:
 			e.set(v, &Val{typ: v.Type(), c: []string{ref}})
+			if mc, ok := in.(*ssa.MakeClosure); ok {
+				e.closurePre(mc, st)
+			}
 		}
 	case *ssa.Range:
 		if !e.rangeMap(in, st) {
@@ -478,4 +482,134 @@ func (e *Enc) lookup(in *ssa.Lookup, st *State) {
 	}
 	// unsupported key shape: unconstrained result (sound over-approximation)
 	e.set(in, e.freshVal("mapget", in.Type()))
+}
+
+// closurePre checks, where a closure is created, those preconditions of the closure's contract that speak only about
+// captured variables. A variable captured by reference must not be assigned between creation and any call: checked
+// syntactically (no store to its cell is reachable from the creation point, and none inside the closure).
+func (e *Enc) closurePre(mc *ssa.MakeClosure, st *State) {
+	fn, ok := mc.Fn.(*ssa.Function)
+	if !ok {
+		return
+	}
+	con := e.db.byFunc[fname(fn)]
+	if con == nil || len(con.Requires) == 0 {
+		return
+	}
+	vars := map[string]*Val{}
+	refCells := map[string]*ssa.Alloc{}
+	for i, fv := range fn.FreeVars {
+		b := mc.Bindings[i]
+		if a, ok := b.(*ssa.Alloc); ok {
+			t := a.Type().Underlying().(*types.Pointer).Elem()
+			vars[fv.Name()] = e.loadAt(st, e.val(a).c[0], t)
+			refCells[fv.Name()] = a
+		} else {
+			vars[fv.Name()] = e.val(b)
+		}
+	}
+	for _, r := range con.Requires {
+		if !e.active(r) {
+			continue
+		}
+		f, ok := func() (f string, ok bool) {
+			defer func() {
+				if recover() != nil {
+					ok = false
+				}
+			}()
+			env := &Env{e: e, st: st, old: st, vars: vars, noLocals: true}
+			return env.formula(r.E), true
+		}()
+		if !ok {
+			continue // mentions closure parameters: not checkable at creation
+		}
+		stable := "true"
+		for name, a := range refCells {
+			if !mentions(r.E, name) {
+				continue
+			}
+			if storeReachableAfter(mc, a) || storesToFreeVar(fn, name) {
+				stable = "false"
+			}
+		}
+		e.obligeClause("pre-closure:"+fn.Name(), r, mc.Pos(), and(f, stable))
+	}
+}
+
+func mentions(x Expr, name string) bool {
+	switch x := x.(type) {
+	case *EIdent:
+		return x.Name == name
+	case *ESel:
+		return mentions(x.X, name)
+	case *EIndex:
+		return mentions(x.X, name) || mentions(x.I, name)
+	case *ECall:
+		for _, a := range x.Args {
+			if mentions(a, name) {
+				return true
+			}
+		}
+	case *EUnary:
+		return mentions(x.X, name)
+	case *EBinary:
+		return mentions(x.L, name) || mentions(x.R, name)
+	case *EForall:
+		return mentions(x.Body, name)
+	case *EExists:
+		return mentions(x.Body, name)
+	case *EOld:
+		return mentions(x.X, name)
+	}
+	return false
+}
+
+func storeReachableAfter(mc *ssa.MakeClosure, a *ssa.Alloc) bool {
+	isStore := func(in ssa.Instruction) bool {
+		s, ok := in.(*ssa.Store)
+		return ok && rootAlloc(s.Addr) == a
+	}
+	blk := mc.Block()
+	after := false
+	for _, in := range blk.Instrs {
+		if in == ssa.Instruction(mc) {
+			after = true
+			continue
+		}
+		if after && isStore(in) {
+			return true
+		}
+	}
+	seen := map[*ssa.BasicBlock]bool{}
+	var stack []*ssa.BasicBlock
+	stack = append(stack, blk.Succs...)
+	for len(stack) > 0 {
+		b := stack[len(stack)-1]
+		stack = stack[:len(stack)-1]
+		if seen[b] {
+			continue
+		}
+		seen[b] = true
+		for _, in := range b.Instrs {
+			if isStore(in) {
+				return true
+			}
+		}
+		stack = append(stack, b.Succs...)
+	}
+	return false
+}
+
+func storesToFreeVar(fn *ssa.Function, name string) bool {
+	for _, b := range fn.Blocks {
+		for _, in := range b.Instrs {
+			if s, ok := in.(*ssa.Store); ok {
+				if fv, ok := s.Addr.(*ssa.FreeVar); ok && fv.Name() == name {
+					return true
+				}
+			}
+		}
+	}
+	return false
 }
